@@ -67,6 +67,109 @@ class Lst(Value):
         return f"Lst({self.items})"
 
 
+class Gen(Lst):
+    """The object a generator FUNCTION returns: its body runs lazily, one step per request, interleaved with the consumer
+    exactly as in Python (implemented as a coroutine on a helper thread with strict hand-off: one side runs at a time).
+    '.items' hands out everything that is left (and runs the body to its end), so code that treats the value as a list
+    gets the remaining elements; a for loop and next() pull one element at a time."""
+    is_gen = True
+
+    def __init__(self, interp, fn, frame, node):
+        self.label = None
+        self.consumed = False
+        self._it = interp
+        self._fn = fn
+        self._frame = frame
+        self._node = node
+        self._thread = None
+        self._finished = False
+        self._closing = False
+        self._out = None
+        self._state = None
+        import threading
+        self._resume = threading.Semaphore(0)
+        self._yielded = threading.Semaphore(0)
+        interp.__dict__.setdefault("_live_gens", []).append(self)
+
+    # -- consumer side
+    def pull(self):
+        """-> (value,) for the next element, or None when the generator is exhausted; exceptions of the body propagate."""
+        if self._finished:
+            return None
+        it = self._it
+        import threading
+        if self._thread is None:
+            fi = self._fn.fi
+            self._state = (it.depth + 1, list(it.fn_stack) + [fi], it.ctx, list(it.__dict__.get("_cm_stack", [])))
+            self._thread = threading.Thread(target=self._body, daemon=True)
+            self._thread.start()
+        mine = (it.depth, list(it.fn_stack), it.ctx, list(it.__dict__.get("_cm_stack", [])), getattr(it, "cur_stmt", None))
+        it.depth, it.fn_stack[:], it.ctx = self._state[0], self._state[1], self._state[2]
+        it.__dict__["_cm_stack"] = self._state[3]
+        self._resume.release()
+        self._yielded.acquire()
+        self._state = (it.depth, list(it.fn_stack), it.ctx, list(it.__dict__.get("_cm_stack", [])))
+        it.depth, it.fn_stack[:], it.ctx = mine[0], mine[1], mine[2]
+        it.__dict__["_cm_stack"] = mine[3]
+        it.cur_stmt = mine[4]
+        out, self._out = self._out, None
+        if out[0] == "yield":
+            return (out[1],)
+        if out[0] == "exc":
+            raise out[1]
+        return None
+
+    def close(self):
+        if self._thread is not None and not self._finished:
+            self._closing = True
+            try:
+                self.pull()
+            except BaseException:
+                pass
+        self._finished = True
+
+    @property
+    def items(self):
+        out = []
+        while True:
+            r = self.pull()
+            if r is None:
+                return out
+            out.append(r[0])
+
+    @items.setter
+    def items(self, v):
+        pass
+
+    # -- producer side (runs on the helper thread)
+    def _body(self):
+        self._resume.acquire()
+        it = self._it
+        try:
+            if self._closing:
+                raise _GenClose()
+            with it.context("inline", self._fn.fi, self._node):
+                it.exec_block(self._fn.fi.node.body, self._frame)
+            self._out = ("done",)
+        except (_Return, _GenClose):
+            self._out = ("done",)
+        except BaseException as e:  # noqa: B902 - every outcome of the body belongs to the consumer
+            self._out = ("exc", e)
+        finally:
+            self._finished = True
+            self._yielded.release()
+
+    def emit_value(self, v):
+        self._out = ("yield", v)
+        self._yielded.release()
+        self._resume.acquire()
+        if self._closing:
+            raise _GenClose()
+
+    def __repr__(self):
+        return f"Gen({self._fn.fi.name})"
+
+
 class Dct(Value):
     def __init__(self, pairs=(), label=None):
         self.pairs = [list(p) for p in pairs]
@@ -166,6 +269,8 @@ def show(v) -> str:
         return repr(v.v)
     if isinstance(v, Tup):
         return "(" + ", ".join(show(x) for x in v.items) + ("," if len(v.items) == 1 else "") + ")"
+    if isinstance(v, Gen):
+        return f"<generator {v._fn.fi.name}>"
     if isinstance(v, Lst):
         return "[" + ", ".join(show(x) for x in v.items) + "]"
     if isinstance(v, Dct):
@@ -454,6 +559,17 @@ class _Truncate(Exception):
     pass
 
 
+class _GenClose(Exception):
+    """A suspended generator is closed (its consumer is gone): unwinds the generator's frames, running finally blocks."""
+
+
+class _CmExit(Exception):
+    """The body of a 'with' on a generator-based context manager left by return/break/continue: travels through the
+    generator's frames (running their finally blocks) back to the with statement, which re-raises the signal."""
+    def __init__(self, signal):
+        self.signal = signal
+
+
 class _Replay(Exception):
     pass
 
@@ -655,9 +771,14 @@ class Interp:
             from .model import walk_no_nested
             is_gen = fi._is_generator = any(isinstance(n, (ast.Yield, ast.YieldFrom)) for n in walk_no_nested(fi.node))
         if is_gen:
-            # a generator function is evaluated eagerly: the values it yields, in order (laziness only interleaves
-            # the same side effects with the consumer's; rules that care about that order do not inline it)
             frame.yields = []
+            cmstack = self.__dict__.get("_cm_stack")
+            is_cm = bool(cmstack) and cmstack[-1]["fi"] is fi and not cmstack[-1]["done"]
+            if not is_cm and self.opts.get("lazy_generators", True):
+                # calling a generator function runs nothing: the body runs when (and as far as) the result is consumed
+                g = Gen(self, fn, frame, node)
+                frame.gen = g
+                return g
         memo_key = self._memo_key(fi, argv, kwargs)
         if memo_key not in (None, "opaque"):
             hit = self.__dict__.setdefault("_memo", {}).get(memo_key)
@@ -860,10 +981,35 @@ class Interp:
         self.emit("loop-exit", st, loop=lid, how="cond")
         self.exec_block(st.orelse, frame)
 
+    def _for_gen(self, st, frame, g, lid):
+        self.emit("loop-enter", st, loop=lid, iterable=g, n=-1, symbolic=False)
+        i = -1
+        while True:
+            r = g.pull()
+            if r is None:
+                break
+            i += 1
+            if i > self.opts.get("max_live_for", 500):
+                raise Undecided(f"generator does not end (line {st.lineno})")
+            with self.context("loop", lid, i, st):
+                self.emit("loop-iter", st, loop=lid, it=i)
+                self.assign(st.target, r[0], frame, st, loop_target=True)
+                try:
+                    self.exec_block(st.body, frame)
+                except _Break:
+                    self.emit("loop-exit", st, loop=lid, how="break")
+                    return
+                except _Continue:
+                    continue
+        self.emit("loop-exit", st, loop=lid, how="exhausted")
+        self.exec_block(st.orelse, frame)
+
     def st_For(self, st, frame):
         itv = self.eval(st.iter, frame)
         self.loop_counter += 1
         lid = (self.loop_counter, st.lineno)
+        if isinstance(itv, Gen):
+            return self._for_gen(st, frame, itv, lid)
         items = self.concrete_iter(itv)
         if items is None and self.opts.get("concrete_only"):
             raise Undecided(f"a loop iterates over a value that constant evaluation does not know ({show(itv)[:70]}, line {st.lineno})")
@@ -1072,6 +1218,8 @@ class Interp:
         return None
 
     def st_With(self, st, frame):
+        if self._with_modelled(st, st.items, frame):
+            return
         frames = []
         for item in st.items:
             cm = self.eval(item.context_expr, frame)
@@ -1088,10 +1236,115 @@ class Interp:
 
     st_AsyncWith = st_With
 
+    def _is_cm_function(self, v):
+        return isinstance(v, Fn) and any(d.split("(")[0].split(".")[-1] in ("contextmanager", "asynccontextmanager") for d in getattr(v.fi, "decorators", []))
+
+    def _with_modelled(self, st, items, frame) -> bool:
+        """'with' on context managers whose code is part of the program: a function under @contextmanager (the with body
+        runs at its yield, so an exception of the body meets the generator's own try/except/finally), or an object of a
+        repository class with __enter__/__exit__ (called; a truthy __exit__ result suppresses the exception).  Returns
+        False for anything else (locks, files, foreign objects), which keeps the opaque treatment."""
+        if not items:
+            self.exec_block(st.body, frame)
+            return True
+        item, rest = items[0], items[1:]
+        ce = item.context_expr
+        callee = None
+        if isinstance(ce, ast.Call):
+            try:
+                callee = self.eval(ce.func, frame)
+            except Undecided:
+                callee = None
+        if callee is not None and self._is_cm_function(callee):
+            args, kwargs, starkw = [], {}, []
+            for a in ce.args:
+                args.append(self.eval(a, frame))
+            for k in ce.keywords:
+                if k.arg is None:
+                    raise Undecided("**kwargs in a context manager call")
+                kwargs[k.arg] = self.eval(k.value, frame)
+            rec = {"fi": callee.fi, "done": False, "item": item, "rest": rest, "st": st, "frame": frame}
+            stack = self.__dict__.setdefault("_cm_stack", [])
+            stack.append(rec)
+            self.emit("with-enter", st, cm=Term("call", callee, tuple(args), tuple(kwargs.items())), is_async=isinstance(st, ast.AsyncWith))
+            try:
+                self.run_function(callee, args, kwargs, st)
+            except _CmExit as x:
+                if x.signal is not None and rec.get("signal_owner"):
+                    raise x.signal
+                raise
+            finally:
+                stack.pop()
+                self.emit("with-exit", st, cm=Term("call", callee, tuple(args), tuple(kwargs.items())))
+            if not rec["done"]:
+                raise Undecided(f"the context manager {callee.fi.name} did not yield")
+            return True
+        # class-based: decided only when every item of this with statement is an object of a repository class
+        try:
+            cm = self.eval(ce, frame)
+        except Undecided:
+            return False
+        if not (isinstance(cm, Obj) and cm.cls is not None and cm.cls.find_method("__enter__") is not None and cm.cls.find_method("__exit__") is not None):
+            if items is st.items:
+                return False
+            # an opaque manager after a modelled one: keep it opaque, continue with the rest
+            self.emit("with-enter", st, cm=cm, is_async=isinstance(st, ast.AsyncWith))
+            if item.optional_vars is not None:
+                self.assign(item.optional_vars, Term("enter", cm), frame, st)
+            try:
+                with self.context("with", (show(cm),), st):
+                    self._with_modelled(st, rest, frame) if rest else self.exec_block(st.body, frame)
+            finally:
+                self.emit("with-exit", st, cm=cm)
+            return True
+        saved = self.opts.get("inline")
+        self.opts["inline"] = lambda fi, node, _s=saved: True if (fi.cls is not None and fi.cls in cm.cls.mro and fi.name in ("__enter__", "__exit__")) else (_s(fi, node) if _s else False)
+        try:
+            entered = self.run_function(Fn(cm.cls.find_method("__enter__"), cm), [], {}, st)
+            if item.optional_vars is not None:
+                self.assign(item.optional_vars, entered, frame, st)
+            ex = Fn(cm.cls.find_method("__exit__"), cm)
+            try:
+                if rest:
+                    self._with_modelled(st, rest, frame)
+                else:
+                    self.exec_block(st.body, frame)
+            except _Raise as r:
+                res = self.run_function(ex, [Obj(None, label="<exception type>"), r.value if isinstance(r.value, (Obj, Term)) else Obj(None, label="<exception>"), Obj(None, label="<traceback>")], {}, st)
+                if self.truth(res, st):
+                    return True
+                raise
+            except (_Return, _Break, _Continue, _CmExit):
+                self.run_function(ex, [Const(None), Const(None), Const(None)], {}, st)
+                raise
+            else:
+                self.run_function(ex, [Const(None), Const(None), Const(None)], {}, st)
+        finally:
+            if saved is None:
+                self.opts.pop("inline", None)
+            else:
+                self.opts["inline"] = saved
+        return True
+
+    def _cm_yield(self, rec, value):
+        """The yield of a generator-based context manager: bind the 'as' target, run the rest of the with statement."""
+        rec["done"] = True
+        item, rest, st, frame = rec["item"], rec["rest"], rec["st"], rec["frame"]
+        if item.optional_vars is not None:
+            self.assign(item.optional_vars, value, frame, st)
+        try:
+            if rest:
+                self._with_modelled(st, rest, frame)
+            else:
+                self.exec_block(st.body, frame)
+        except (_Return, _Break, _Continue) as sig:
+            rec["signal_owner"] = True
+            raise _CmExit(sig)
+
     def st_Try(self, st, frame):
         try:
             self._try_core(st, frame)
-        except (_Return, _Raise, _Break, _Continue) as sig:
+        except (_Return, _Raise, _Break, _Continue, _CmExit, _GenClose) as sig:
             if st.finalbody:
                 with self.context("finally", st):
                     self.exec_block(st.finalbody, frame)
@@ -1889,6 +2142,11 @@ class Interp:
             return f(l, r)
         return None
 
+    def close_generators(self):
+        for g in self.__dict__.get("_live_gens", []):
+            g.close()
+        self.__dict__["_live_gens"] = []
+
     def _gen_value(self, items):
         g_ = Lst(list(items))
         g_.is_gen = True
@@ -1904,6 +2162,13 @@ class Interp:
         if not hasattr(frame, "yields"):
             raise Undecided("yield outside an inlined generator function")
         v = self.eval(e.value, frame) if e.value is not None else Const(None)
+        stack = self.__dict__.get("_cm_stack")
+        if stack and stack[-1]["fi"] is frame.fi and not stack[-1]["done"]:
+            self._cm_yield(stack[-1], v)
+            return Const(None)
+        if getattr(frame, "gen", None) is not None:
+            frame.gen.emit_value(v)
+            return Const(None)
         frame.yields.append(v)
         return Const(None)
 
@@ -1911,6 +2176,22 @@ class Interp:
         if not hasattr(frame, "yields"):
             raise Undecided("yield from outside an inlined generator function")
         v = self.eval(e.value, frame)
+        if getattr(frame, "gen", None) is not None:
+            if isinstance(v, Gen):
+                while True:
+                    r = v.pull()
+                    if r is None:
+                        return Const(None)
+                    frame.gen.emit_value(r[0])
+            items = self.concrete_iter(v)
+            if items is None:
+                raise Undecided("yield from a sequence that is not concrete")
+            live = v if isinstance(v, Lst) and not getattr(v, "is_gen", False) else None
+            i = 0
+            while i < len(live.items if live is not None else items):
+                frame.gen.emit_value((live.items if live is not None else items)[i])
+                i += 1
+            return Const(None)
         items = self.concrete_iter(v)
         if items is None:
             raise Undecided("yield from a sequence that is not concrete")
@@ -2148,6 +2429,11 @@ class Interp:
         if isinstance(callee, Foreign) and callee.dotted.split(".")[-1] in ("itemgetter", "attrgetter") and callee.dotted.split(".")[0] in ("operator", "itemgetter", "attrgetter") and len(args) == 1 and isinstance(args[0], Const):
             t_ = Term("getter", callee.dotted.split(".")[-1], args[0])
             return t_
+        if isinstance(callee, Foreign) and callee.dotted.split(".")[-1] in ("itemgetter", "attrgetter") and callee.dotted.split(".")[0] in ("operator", "itemgetter", "attrgetter") and len(args) > 1 and all(isinstance(a, Const) for a in args):
+            return Term("getters", callee.dotted.split(".")[-1], tuple(args))
+        if isinstance(callee, Term) and callee.op == "getters" and len(args) == 1:
+            one = [self.apply(Term("getter", callee.args[0], k_), [args[0]], {}, [], node, frame, False) for k_ in callee.args[1]]
+            return Tup(one)
         if isinstance(callee, Term) and callee.op == "getter" and len(args) == 1:
             if callee.args[0] == "itemgetter":
                 b_ = args[0]
@@ -2271,7 +2557,7 @@ class Interp:
                 if r is not None:
                     return r
             return t
-        if isinstance(callee, Cls) and self.opts.get("instantiate") and self.opts["instantiate"](callee.ci) and not starkw:
+        if isinstance(callee, Cls) and not starkw and ((self.opts.get("instantiate") and self.opts["instantiate"](callee.ci)) or self.is_private_class(callee.ci)):
             n = self.__dict__.setdefault("_obj_counter", {})
             n[callee.ci.name] = n.get(callee.ci.name, 0) + 1
             o = Obj(callee.ci, {}, label=f"{callee.ci.name}#{n[callee.ci.name]}")
@@ -2306,6 +2592,14 @@ class Interp:
             if r is not None:
                 return r
         return t
+
+    def is_private_class(self, ci) -> bool:
+        """Private classes of the repository (single leading underscore) that only bundle behaviour of their user - context
+        managers (__enter__/__exit__) - are instantiated like the code that uses them is inlined."""
+        if self.opts.get("private_helpers") is False:
+            return False
+        n = ci.name
+        return n.startswith("_") and not n.startswith("__") and ci.module.name.startswith(("indi.", "indilint_synthetic")) and ci.find_method("__enter__") is not None and ci.find_method("__exit__") is not None
 
     def is_private_helper(self, fi) -> bool:
         """Private helpers of the repository (single leading underscore: methods, module functions, closures) are part of
@@ -2455,6 +2749,15 @@ class Interp:
                     if not any(same_value(x, y) is True for y in out):
                         out.append(x)
                 return Tup(out)
+        if name == "next" and 1 <= len(args) <= 2 and isinstance(args[0], Gen):
+            r_ = args[0].pull()
+            if r_ is not None:
+                return r_[0]
+            if len(args) == 2:
+                return args[1]
+            x = Term("exc", "StopIteration")
+            self.emit("raise", node, value=x)
+            raise _Raise(x, node)
         if name == "next" and 1 <= len(args) <= 2:
             items = self.concrete_iter(args[0])
             if items is not None:
@@ -2947,6 +3250,8 @@ def explore(program: Program, run: Callable[[Interp], Optional[Value]], opts=Non
         p = Path()
         try:
             v = run(it)
+            if isinstance(v, Gen):
+                v = it._gen_value(v.items)
             p.outcome, p.value = "return", v
         except _Return as r:
             p.outcome, p.value = "return", r.value
@@ -2955,7 +3260,12 @@ def explore(program: Program, run: Callable[[Interp], Optional[Value]], opts=Non
         except _Truncate:
             p.outcome = "truncated"
         except (_Break, _Continue):
+            it.close_generators()
             raise Undecided("break/continue outside loop")
+        except BaseException:
+            it.close_generators()
+            raise
+        it.close_generators()
         p.events = it.events
         p.decisions = list(it.taken)
         p.interp = it
